@@ -156,11 +156,17 @@ pub fn leak(o: &O) -> &'static B {
 }
 
 pub fn gen_name(r: &mut Rng) -> String {
-    match r.below(10) {
+    match r.below(14) {
         0 => String::new(),
         1 => "a".into(),
         2 => "\u{e9}\u{4e16}".into(),
         3 => "\u{1F600}x".into(),
+        // names are opaque strings to the schema machinery: nothing may normalise, trim or reinterpret them
+        4 => (*r.pick(&["r#type", "r#", "r#x", "r#r#y", "R#z", " lead", "trail ", "a.b", "a::b", "0", "_", "self", "\u{0}", "a\u{0}b", "\t"])).into(),
+        5 => {
+            let n = *r.pick(&[31usize, 32, 63, 64, 65, 127, 128, 129, 255, 256, 300]);
+            (0..n).map(|i| (b'a' + ((i * 7) % 26) as u8) as char).collect()
+        }
         _ => {
             let n = r.range(1, 6);
             (0..n).map(|_| (b'a' + r.below(26) as u8) as char).collect()
@@ -216,6 +222,39 @@ pub fn gen_schema(r: &mut Rng, depth: u32, fan: u64) -> O {
             }
         }
     }
+}
+
+/// schemas at SCALE: nesting depth and field / variant / element counts on a ladder (nothing in the schema
+/// machinery may depend on these sizes)
+pub fn scale_schemas(r: &mut Rng, max_depth: usize, max_width: usize) -> Vec<O> {
+    let nm = |s: String| s.into_boxed_str();
+    let mut out = Vec::new();
+    let lad = [15usize, 16, 17, 31, 32, 33, 63, 64, 65, 100, 127, 128, 129, 130, 200, 255, 256, 257, 300, 511, 512, 513, 1023, 1024, 1025];
+    for &d in lad.iter().filter(|d| **d <= max_depth) {
+        for kind in 0..8usize {
+            let mut s = if kind % 2 == 0 { O::U8 } else { O::String };
+            for level in 0..d {
+                let k = if kind == 7 { level % 7 } else { kind };
+                s = match k {
+                    0 => O::Option(Box::new(s)),
+                    1 => O::Seq(Box::new(s)),
+                    2 => O::Tuple(vec![s].into_boxed_slice()),
+                    3 => O::Map { key: Box::new(O::String), val: Box::new(s) },
+                    4 => O::Struct { name: nm(format!("N{}", level)), data: OwnedData::Newtype(Box::new(s)) },
+                    5 => O::Struct { name: nm(format!("S{}", level % 3)), data: OwnedData::Struct(vec![OwnedNamedField { name: nm(format!("f{}", level)), ty: s }].into_boxed_slice()) },
+                    _ => O::Enum { name: nm("E".to_string()), variants: vec![OwnedVariant { name: nm("Leaf".to_string()), data: OwnedData::Unit }, OwnedVariant { name: nm(format!("V{}", level)), data: OwnedData::Tuple(vec![s].into_boxed_slice()) }].into_boxed_slice() },
+                };
+            }
+            out.push(s);
+        }
+    }
+    for &n in lad.iter().filter(|n| **n <= max_width) {
+        out.push(O::Tuple((0..n).map(|i| if i % 2 == 0 { O::U8 } else { O::Bool }).collect::<Vec<_>>().into_boxed_slice()));
+        out.push(O::Tuple(vec![O::I16; n].into_boxed_slice()));
+        out.push(O::Struct { name: nm("Wide".to_string()), data: OwnedData::Struct((0..n).map(|i| OwnedNamedField { name: nm(format!("field_{}", i)), ty: if i % 3 == 0 { O::Option(Box::new(O::U16)) } else { O::U16 } }).collect::<Vec<_>>().into_boxed_slice()) });
+        out.push(O::Enum { name: nm("Many".to_string()), variants: (0..n).map(|i| OwnedVariant { name: nm(format!("V{}", i)), data: match i % 4 { 0 => OwnedData::Unit, 1 => OwnedData::Newtype(Box::new(O::U8)), 2 => OwnedData::Tuple(vec![O::U8, O::Bool].into_boxed_slice()), _ => OwnedData::Struct(vec![OwnedNamedField { name: gen_name(r).into_boxed_str(), ty: O::I32 }].into_boxed_slice()) } }).collect::<Vec<_>>().into_boxed_slice() });
+    }
+    out
 }
 
 /// every one of the 26 node kinds and 4+4 data kinds at least once, as single-node-ish schemas
